@@ -17,6 +17,7 @@ class Parser:
         self._safety_check: bool = True
         self._translation: Optional[str] = None
         self._entrypoint_cell: Optional[Cell] = None
+        self._entrypoint_identifiers: Optional[tuple] = None
         self._entrypoint_cell_has_been_changed: bool = True
         self._excel_file_path: Optional[str] = None
         self._excel_file_path_has_been_changed: bool = True
@@ -70,6 +71,9 @@ class Parser:
             Parser.
         """
         self._entrypoint_cell = cell
+        # the identifiers as the caller gave them: translating resolves a sheet title to the index it has in the
+        # current workbook, and that index must not be carried over to the next workbook
+        self._entrypoint_identifiers = (cell.title, cell.column, cell.row) if cell else None
         self._entrypoint_cell_has_been_changed = True
         return self
 
@@ -101,7 +105,7 @@ class Parser:
         context._sheets_size = excel.get_sheets_size()
 
         if self._entrypoint_cell:
-            CellTranslator.translate(excel.fill_cell(self._entrypoint_cell), excel, context)
+            CellTranslator.translate(excel.fill_cell(Cell(*self._entrypoint_identifiers)), excel, context)
         else:
             CellTranslator.translate_file(excel, context)
 
